@@ -1467,12 +1467,47 @@ theorem dSetChild_cproj (s : DState) (pid : Key) (b : String) (id : Key) (isDir 
   · simp only [↓reduceIte]
     split <;> simp [setNode]
 
+/-- `getOrCreateDir` does not touch the list of hardlink sources -/
+theorem mGoc_hl (ms : List MEnt) : ∀ (rev : List String) (s : MState),
+    (mGetOrCreateDir ms s rev).1.hlSources = s.hlSources := by
+  intro rev
+  induction rev with
+  | nil =>
+    intro s
+    simp only [mGetOrCreateDir]
+    split <;> rfl
+  | cons b rest ih =>
+    intro s
+    simp only [mGetOrCreateDir]
+    split
+    · rfl
+    · simp only [mAddChild]
+      rw [ih]
+
+theorem Inv.set_hl {ms : List MEnt} {i : Nat} {sm : MState} {sd : DState} {P : List Path}
+    {δ : Key → Int} (inv : Inv ms i sm sd P δ) (l : List Key) :
+    Inv ms i { sm with hlSources := l } sd P δ :=
+  ⟨inv.kids, inv.walk, inv.impsNone, inv.pend, inv.node, inv.noKids, inv.pendKids, inv.freshNl,
+    inv.rootImp, inv.kidsCreated⟩
+
+/-- keys a hardlink may be resolved to: existing nodes that are not directories -/
+def HlOK (ms : List MEnt) (i : Nat) (sm : MState) : Prop :=
+  ∀ org, org ∈ sm.hlSources → Created ms i sm.imps org ∧ ¬ IsDirKey ms org
+
+theorem created_succ {ms : List MEnt} {i : Nat} {imps : List Path} {k : Key}
+    (h : Created ms i imps k) : Created ms (i + 1) imps k := by
+  cases k with
+  | root => trivial
+  | imp p => exact h
+  | ent j => exact ⟨by have := h.1; omega, h.2⟩
+
 theorem step_plain {ms : List MEnt} (ok : TreeOK ms) {i : Nat} {sm : MState} {sd : DState} (m : MEnt)
     (inv : Inv ms i sm sd [] (fun _ => 0))
     (hm : ms[i]? = some m) (hc : m.e.type ≠ "chunk") (hh : m.e.type ≠ "hardlink")
     (hname : cleanName m.e.name = m.path) :
     ∃ sm' sd', pass2Step ms sm i m = some sm' ∧ dStep sd i m.e = some sd' ∧
-      Inv ms (i + 1) sm' sd' [] (fun _ => 0) ∧ cproj sd' = cStep ms (cproj sd) i m.e := by
+      Inv ms (i + 1) sm' sd' [] (fun _ => 0) ∧ cproj sd' = cStep ms (cproj sd) i m.e ∧
+      sm'.hlSources = sm.hlSources ∧ (∀ p, p ∈ sm.imps → p ∈ sm'.imps) := by
   have hnc : NonChunkAt ms i m.path := ⟨m, hm, hc, rfl⟩
   have hdne : m.path ≠ [] := fun e => ok.noRoot i (e ▸ hnc)
   have hsplit := path_split m.path hdne
@@ -1481,9 +1516,11 @@ theorem step_plain {ms : List MEnt} (ok : TreeOK ms) {i : Nat} {sm : MState} {sd
     (writeAttr {} (attrOfEntry m.e (if m.e.type = "dir" then 2 else 1)))
   have hadm : Admissible ms i (parentDir m.path).reverse.reverse := by
     rw [List.reverse_reverse]; exact admissible_parent ok hnc
-  obtain ⟨sm2, sd2, pk, hg1, hg2, inv2, hlook2, hdir2, hroot2, _, hnodes2, hle2, hls2, hch2⟩ :=
+  obtain ⟨sm2, sd2, pk, hg1, hg2, inv2, hlook2, hdir2, hroot2, hmono2, hnodes2, hle2, hls2, hch2⟩ :=
     goc ok i (parentDir m.path).reverse sm _ [] (fun _ => 0) inv1 (fun _ => rfl) hadm
       (fun _ _ h => by cases h)
+  have hhl2 : sm2.hlSources = sm.hlSources := by
+    have := mGoc_hl ms (parentDir m.path).reverse sm; rw [hg1] at this; exact this
   rw [List.reverse_reverse] at hlook2
   have hnode2 : sd2.nodes (.ent i) = some (writeAttr {} (attr0 ms (.ent i))) := by
     rw [hnodes2 i (Nat.le_refl _)]
@@ -1519,7 +1556,7 @@ theorem step_plain {ms : List MEnt} (ok : TreeOK ms) {i : Nat} {sm : MState} {sd
     unfold pass2Step
     rw [if_neg hc, if_neg hdne]
     simp only [hg1, hh, ↓reduceIte]
-  refine ⟨_, _, hpass, hdstep, ?_, ?_⟩
+  refine ⟨_, _, hpass, hdstep, ?_, ?_, hhl2, hmono2⟩
   · apply inv3.congr_db
     · split <;> rfl
     · split <;> rfl
@@ -1562,7 +1599,9 @@ theorem step_hardlink {ms : List MEnt} (ok : TreeOK ms) (hnl : (namesOf ms).Nodu
     (hm : ms[i]? = some m) (hh : m.e.type = "hardlink")
     (hname : cleanName m.e.name = m.path) :
     ∃ sm' sd', pass2Step ms sm i m = some sm' ∧ dStep sd i m.e = some sd' ∧
-      Inv ms (i + 1) sm' sd' [] (fun _ => 0) ∧ cproj sd' = cStep ms (cproj sd) i m.e := by
+      Inv ms (i + 1) sm' sd' [] (fun _ => 0) ∧ cproj sd' = cStep ms (cproj sd) i m.e ∧
+      (∃ org, sm'.hlSources = org :: sm.hlSources ∧ Created ms (i + 1) sm'.imps org ∧ ¬ IsDirKey ms org) ∧
+      (∀ p, p ∈ sm.imps → p ∈ sm'.imps) := by
   have hc : m.e.type ≠ "chunk" := by rw [hh]; decide
   have hnd : m.e.type ≠ "dir" := by rw [hh]; decide
   have hnr : m.e.type ≠ "reg" := by rw [hh]; decide
@@ -1580,7 +1619,22 @@ theorem step_hardlink {ms : List MEnt} (ok : TreeOK ms) (hnl : (namesOf ms).Nodu
   have hoc : ∀ imps, Created ms i imps (.ent r) := fun _ => ⟨by omega, mr, hr3, hr4, hr5⟩
   have hod : ¬ IsDirKey ms (.ent r) := by
     rintro ⟨m', h1, h2⟩; rw [hr3] at h1; cases h1; exact hr6 hh h2
-  obtain ⟨bo, hbo, _, _⟩ := inv.node (.ent r) (hoc _)
+  obtain ⟨bo, hbo, hboe, _⟩ := inv.node (.ent r) (hoc _)
+  -- the stored mode of the target is not a directory's
+  have hbomode : fmIsDir ((bo.mode.getD 0) % 4294967296) = false := by
+    have h8 : bo.mode = (writeAttr {} (attr0 ms (.ent r))).mode := by
+      have := congrArg DbAttr.mode hboe; exact this
+    have ha0 : attr0 ms (.ent r) = attrOfEntry mr.e (if mr.e.type = "dir" then 2 else 1) := by
+      simp [attr0, hr3]
+    have hmode : (writeAttr {} (attr0 ms (.ent r))).mode.getD 0 = goFileMode mr.e.type mr.e.mode := by
+      rw [ha0]
+      unfold writeAttr
+      simp only [attrOfEntry]
+      cases mr.e.xattrs with
+      | nil => by_cases h0 : goFileMode mr.e.type mr.e.mode = 0 <;> simp [h0]
+      | cons f rest => cases rest <;> (by_cases h0 : goFileMode mr.e.type mr.e.mode = 0 <;> simp [h0])
+    rw [h8, hmode, Nat.mod_eq_of_lt (goFileMode_lt _ _)]
+    exact fmIsDir_go_false _ _ (hr6 hh)
   have hwalkt : dGetIDByName sd (cleanName m.e.linkName) = some (.ent r) := by
     unfold dGetIDByName
     have := inv.walk (cleanName m.e.linkName)
@@ -1610,8 +1664,11 @@ theorem step_hardlink {ms : List MEnt} (ok : TreeOK ms) (hnl : (namesOf ms).Nodu
     have h2 := distinctNames_eq hnl
     unfold lenM; omega
   have hkt : keyType ms (.ent r) ≠ "dir" := isDirKey_keyType hod
+  have hhl2 : sm2.hlSources = sm.hlSources := by
+    have := mGoc_hl ms (parentDir m.path).reverse sm; rw [hg1] at this; exact this
   have hpass : pass2Step ms sm i m = some (mAddChild ms
-      { sm2 with nl := (fun k => if k = Key.ent r then (if k = Key.ent i then sm2.nl k + 1 else sm2.nl k) + 1 else (if k = Key.ent i then sm2.nl k + 1 else sm2.nl k)) }
+      { sm2 with nl := (fun k => if k = Key.ent r then (if k = Key.ent i then sm2.nl k + 1 else sm2.nl k) + 1 else (if k = Key.ent i then sm2.nl k + 1 else sm2.nl k)),
+                 hlSources := Key.ent r :: sm2.hlSources }
       pk (baseName m.path) (Key.ent r)) := by
     unfold pass2Step
     rw [if_neg hc, if_neg hdne]
@@ -1623,11 +1680,21 @@ theorem step_hardlink {ms : List MEnt} (ok : TreeOK ms) (hnl : (namesOf ms).Nodu
       { dSetChild sd2 pk (baseName m.path) (.ent r) false with
         lastEnt := some (.ent r), lastEntSize := m.e.size } := by
     unfold dStep
-    simp [hname, hh, hdne, hwalkt, hbo, hg2]
-  refine ⟨_, _, hpass, hdstep, ?_, ?_⟩
-  · exact inv3.congr_db rfl rfl
+    simp [hname, hh, hdne, hwalkt, hbo, hg2, hbomode]
+  refine ⟨_, _, hpass, hdstep, ?_, ?_, ⟨.ent r, by simp [mAddChild, hhl2], ?_, hod⟩, hmono2⟩
+  · have e : mAddChild ms
+        { sm2 with nl := (fun k => if k = Key.ent r then (if k = Key.ent i then sm2.nl k + 1 else sm2.nl k) + 1 else (if k = Key.ent i then sm2.nl k + 1 else sm2.nl k)),
+                   hlSources := Key.ent r :: sm2.hlSources }
+        pk (baseName m.path) (Key.ent r) =
+        { mAddChild ms
+            { sm2 with nl := (fun k => if k = Key.ent r then (if k = Key.ent i then sm2.nl k + 1 else sm2.nl k) + 1 else (if k = Key.ent i then sm2.nl k + 1 else sm2.nl k)) }
+            pk (baseName m.path) (Key.ent r) with hlSources := Key.ent r :: sm2.hlSources } := rfl
+    rw [e]
+    exact Inv.set_hl (inv3.congr_db (sd' := { dSetChild sd2 pk (baseName m.path) (.ent r) false with
+      lastEnt := some (.ent r), lastEntSize := m.e.size }) rfl rfl) _
   · unfold cproj cStep
     simp [hh, hr2, hX.2.2, hch2, setNode]
+  · exact created_succ (hoc _)
 
 theorem step_chunk {ms : List MEnt} (ok : TreeOK ms) {i : Nat} {sm : MState} {sd : DState} (m : MEnt)
     (inv : Inv ms i sm sd [] (fun _ => 0))
@@ -1726,20 +1793,22 @@ theorem run_sim {es : List Entry} (ok : TreeOK (pass1 es)) (hnl : (namesOf (pass
     ∀ (d i : Nat) (sm : MState) (sd : DState), es.length - i = d → i ≤ es.length →
       Inv (pass1 es) i sm sd [] (fun _ => 0) → cproj sd = cRun (pass1 es) es i →
       ((∃ j mj, j < i ∧ (pass1 es)[j]? = some mj ∧ mj.e.type ≠ "chunk") → sd.lastEnt.isSome) →
+      HlOK (pass1 es) i sm →
       ∃ smF sdF, pass2 (pass1 es) (enumFrom' i ((pass1 es).drop i)) sm = some smF ∧
         dRun (enumFrom' i (es.drop i)) sd = .inl sdF ∧
-        Inv (pass1 es) es.length smF sdF [] (fun _ => 0) ∧ cproj sdF = cRun (pass1 es) es es.length := by
+        Inv (pass1 es) es.length smF sdF [] (fun _ => 0) ∧ cproj sdF = cRun (pass1 es) es es.length ∧
+        HlOK (pass1 es) es.length smF := by
   intro d
   induction d with
   | zero =>
-    intro i sm sd hd hi inv hcp _
+    intro i sm sd hd hi inv hcp _ hhl
     have hie : i = es.length := by omega
     subst hie
-    refine ⟨sm, sd, ?_, ?_, inv, hcp⟩
+    refine ⟨sm, sd, ?_, ?_, inv, hcp, hhl⟩
     · rw [enum_drop_nil _ _ (by rw [pass1_length]; exact Nat.le_refl _)]; rfl
     · rw [enum_drop_nil _ _ (Nat.le_refl _)]; rfl
   | succ d ih =>
-    intro i sm sd hd hi inv hcp hlast
+    intro i sm sd hd hi inv hcp hlast hhl
     have hlt : i < es.length := by omega
     have hltm : i < (pass1 es).length := by rw [pass1_length]; exact hlt
     have hm : (pass1 es)[i]? = some (pass1 es)[i] := List.getElem?_eq_getElem hltm
@@ -1749,17 +1818,30 @@ theorem run_sim {es : List Entry} (ok : TreeOK (pass1 es)) (hnl : (namesOf (pass
     rw [enum_drop _ _ hltm, enum_drop _ _ hlt]
     simp only [pass2, dRun]
     -- one step
+    have hmonoHl : ∀ sm' : MState, sm'.hlSources = sm.hlSources → (∀ p, p ∈ sm.imps → p ∈ sm'.imps) →
+        HlOK (pass1 es) (i + 1) sm' := by
+      intro sm' e1 e2 org horg
+      rw [e1] at horg
+      exact ⟨created_succ (created_mono_imps e2 (hhl org horg).1), (hhl org horg).2⟩
     have hstep : ∃ sm' sd', pass2Step (pass1 es) sm i (pass1 es)[i] = some sm' ∧
         dStep sd i es[i] = some sd' ∧ Inv (pass1 es) (i + 1) sm' sd' [] (fun _ => 0) ∧
-        cproj sd' = cStep (pass1 es) (cproj sd) i es[i] := by
+        cproj sd' = cStep (pass1 es) (cproj sd) i es[i] ∧ HlOK (pass1 es) (i + 1) sm' := by
       rw [hee]
       by_cases hc : ((pass1 es)[i]).e.type = "chunk"
       · obtain ⟨sd', h1, h2, h3, h4⟩ := step_chunk ok _ inv hm hc (hlast (hfirst i _ hm hc))
-        exact ⟨sm, sd', h1, h2, h3, h4⟩
+        exact ⟨sm, sd', h1, h2, h3, h4, hmonoHl sm rfl (fun _ h => h)⟩
       · by_cases hh : ((pass1 es)[i]).e.type = "hardlink"
-        · exact step_hardlink ok hnl _ inv hm hh (hname hc).symm
-        · exact step_plain ok _ inv hm hc hh (hname hc).symm
-    obtain ⟨sm', sd', h1, h2, h3, h4⟩ := hstep
+        · obtain ⟨sm', sd', h1, h2, h3, h4, ⟨org, h5, h6, h7⟩, h8⟩ :=
+            step_hardlink ok hnl _ inv hm hh (hname hc).symm
+          refine ⟨sm', sd', h1, h2, h3, h4, ?_⟩
+          intro o ho
+          rw [h5] at ho
+          rcases List.mem_cons.mp ho with e | e
+          · rw [e]; exact ⟨h6, h7⟩
+          · exact ⟨created_succ (created_mono_imps h8 (hhl o e).1), (hhl o e).2⟩
+        · obtain ⟨sm', sd', h1, h2, h3, h4, h5, h6⟩ := step_plain ok _ inv hm hc hh (hname hc).symm
+          exact ⟨sm', sd', h1, h2, h3, h4, hmonoHl sm' h5 h6⟩
+    obtain ⟨sm', sd', h1, h2, h3, h4, hhl'⟩ := hstep
     rw [h1, h2]
     have hcp' : cproj sd' = cRun (pass1 es) es (i + 1) := by
       rw [cRun_succ _ _ _ hlt, ← hcp]; exact h4
@@ -1776,7 +1858,7 @@ theorem run_sim {es : List Entry} (ok : TreeOK (pass1 es)) (hnl : (namesOf (pass
         · left
           exact hlast ⟨j, mj, by omega, hmj, hcj⟩
       exact this
-    exact ih (i + 1) sm' sd' (by omega) (by omega) h3 hcp' hlast'
+    exact ih (i + 1) sm' sd' (by omega) (by omega) h3 hcp' hlast' hhl'
 
 end SV.Toc
 
@@ -2031,15 +2113,6 @@ end SV.Toc
 namespace SV.Toc
 
 /-! # Part 5: attributes -/
-
-theorem goFileMode_lt (t : String) (m : Int) : goFileMode t m < 4294967296 := by
-  unfold goFileMode
-  simp only [modeSetuid, modeSetgid, modeSticky, modeDir, modeSymlink, modeDevice, modeCharDevice,
-    modeNamedPipe]
-  have hperm : ((m % 4096).toNat) % 512 < 512 := Nat.mod_lt _ (by decide)
-  generalize ((m % 4096).toNat) % 512 = perm at hperm
-  generalize (m % 4096).toNat = mm
-  split <;> split <;> split <;> (repeat' split) <;> omega
 
 theorem attr0_mode_lt (ms : List MEnt) (k : Key) : (attr0 ms k).mode < 4294967296 := by
   cases k with
@@ -2821,92 +2894,6 @@ end SV.Toc
 
 namespace SV.Toc
 
-/-! ## mode bits -/
-
-theorem bits_of (perm a b c ty : Nat) (hp : perm < 512) (ha : a ≤ 1) (hb : b ≤ 1) (hc : c ≤ 1)
-    (hty : ty = 0 ∨ ty = 2147483648 ∨ ty = 134217728 ∨ ty = 69206016 ∨ ty = 67108864 ∨ ty = 33554432) :
-    modeTypeBits (perm + (c * 8388608 + b * 4194304 + a * 1048576) + ty) = ty := by
-  unfold modeTypeBits bit modeDir modeSymlink modeDevice modeNamedPipe modeSocket modeCharDevice modeIrregular
-  generalize hn : perm + (c * 8388608 + b * 4194304 + a * 1048576) + ty = n
-  rcases hty with h | h | h | h | h | h <;> subst h
-  · have e31 : n / 2 ^ 31 % 2 = 0 := by omega
-    have e27 : n / 2 ^ 27 % 2 = 0 := by omega
-    have e26 : n / 2 ^ 26 % 2 = 0 := by omega
-    have e25 : n / 2 ^ 25 % 2 = 0 := by omega
-    have e24 : n / 2 ^ 24 % 2 = 0 := by omega
-    have e21 : n / 2 ^ 21 % 2 = 0 := by omega
-    have e19 : n / 2 ^ 19 % 2 = 0 := by omega
-    simp [e31, e27, e26, e25, e24, e21, e19]
-  · have e31 : n / 2 ^ 31 % 2 = 1 := by omega
-    have e27 : n / 2 ^ 27 % 2 = 0 := by omega
-    have e26 : n / 2 ^ 26 % 2 = 0 := by omega
-    have e25 : n / 2 ^ 25 % 2 = 0 := by omega
-    have e24 : n / 2 ^ 24 % 2 = 0 := by omega
-    have e21 : n / 2 ^ 21 % 2 = 0 := by omega
-    have e19 : n / 2 ^ 19 % 2 = 0 := by omega
-    simp [e31, e27, e26, e25, e24, e21, e19]
-  · have e31 : n / 2 ^ 31 % 2 = 0 := by omega
-    have e27 : n / 2 ^ 27 % 2 = 1 := by omega
-    have e26 : n / 2 ^ 26 % 2 = 0 := by omega
-    have e25 : n / 2 ^ 25 % 2 = 0 := by omega
-    have e24 : n / 2 ^ 24 % 2 = 0 := by omega
-    have e21 : n / 2 ^ 21 % 2 = 0 := by omega
-    have e19 : n / 2 ^ 19 % 2 = 0 := by omega
-    simp [e31, e27, e26, e25, e24, e21, e19]
-  · have e31 : n / 2 ^ 31 % 2 = 0 := by omega
-    have e27 : n / 2 ^ 27 % 2 = 0 := by omega
-    have e26 : n / 2 ^ 26 % 2 = 1 := by omega
-    have e25 : n / 2 ^ 25 % 2 = 0 := by omega
-    have e24 : n / 2 ^ 24 % 2 = 0 := by omega
-    have e21 : n / 2 ^ 21 % 2 = 1 := by omega
-    have e19 : n / 2 ^ 19 % 2 = 0 := by omega
-    simp [e31, e27, e26, e25, e24, e21, e19]
-  · have e31 : n / 2 ^ 31 % 2 = 0 := by omega
-    have e27 : n / 2 ^ 27 % 2 = 0 := by omega
-    have e26 : n / 2 ^ 26 % 2 = 1 := by omega
-    have e25 : n / 2 ^ 25 % 2 = 0 := by omega
-    have e24 : n / 2 ^ 24 % 2 = 0 := by omega
-    have e21 : n / 2 ^ 21 % 2 = 0 := by omega
-    have e19 : n / 2 ^ 19 % 2 = 0 := by omega
-    simp [e31, e27, e26, e25, e24, e21, e19]
-  · have e31 : n / 2 ^ 31 % 2 = 0 := by omega
-    have e27 : n / 2 ^ 27 % 2 = 0 := by omega
-    have e26 : n / 2 ^ 26 % 2 = 0 := by omega
-    have e25 : n / 2 ^ 25 % 2 = 1 := by omega
-    have e24 : n / 2 ^ 24 % 2 = 0 := by omega
-    have e21 : n / 2 ^ 21 % 2 = 0 := by omega
-    have e19 : n / 2 ^ 19 % 2 = 0 := by omega
-    simp [e31, e27, e26, e25, e24, e21, e19]
-
-def typeBitsOf (t : String) : Nat :=
-  if t = "dir" then modeDir else if t = "symlink" then modeSymlink
-  else if t = "char" then modeDevice + modeCharDevice else if t = "block" then modeDevice
-  else if t = "fifo" then modeNamedPipe else 0
-
-theorem modeTypeBits_go (t : String) (m : Int) : modeTypeBits (goFileMode t m) = typeBitsOf t := by
-  unfold goFileMode typeBitsOf
-  simp only []
-  have hperm : ((m % 4096).toNat) % 512 < 512 := Nat.mod_lt _ (by decide)
-  generalize ((m % 4096).toNat) % 512 = perm at hperm
-  generalize bit (m % 4096).toNat 11 = b1
-  generalize bit (m % 4096).toNat 10 = b2
-  generalize bit (m % 4096).toNat 9 = b3
-  have hfl : ((if b1 = true then modeSetuid else 0) + (if b2 = true then modeSetgid else 0) +
-      (if b3 = true then modeSticky else 0)) =
-      ((if b1 = true then 1 else 0) * 8388608 + (if b2 = true then 1 else 0) * 4194304 +
-        (if b3 = true then 1 else 0) * 1048576) := by
-    cases b1 <;> cases b2 <;> cases b3 <;> decide
-  rw [hfl]
-  apply bits_of perm _ _ _ _ hperm
-  · split <;> omega
-  · split <;> omega
-  · split <;> omega
-  · simp only [modeDir, modeSymlink, modeDevice, modeCharDevice, modeNamedPipe]
-    (repeat' split) <;> simp
-
-theorem fmIsRegular_go (t : String) (m : Int) : fmIsRegular (goFileMode t m) = decide (typeBitsOf t = 0) := by
-  unfold fmIsRegular; rw [modeTypeBits_go]
-
 end SV.Toc
 
 namespace SV.Toc
@@ -2919,13 +2906,13 @@ theorem final_states {es : List Entry} (sc : SpecConforming es) :
     ∃ smF sdF, pass2 (pass1 es) (enumFrom' 0 (pass1 es)) { nl := initNl (pass1 es) } = some smF ∧
       dRun (enumFrom' 0 es) dInit = .inl sdF ∧
       Inv (pass1 es) es.length smF sdF [] (fun _ => 0) ∧
-      cproj sdF = cRun (pass1 es) es es.length ∧ [] ∈ smF.imps := by
+      cproj sdF = cRun (pass1 es) es es.length ∧ [] ∈ smF.imps ∧ HlOK (pass1 es) es.length smF := by
   have ok := spec_treeOK sc
-  obtain ⟨smF, sdF, h1, h2, inv, hcp⟩ := run_sim ok sc.names (spec_first sc) es.length 0
+  obtain ⟨smF, sdF, h1, h2, inv, hcp, hhl⟩ := run_sim ok sc.names (spec_first sc) es.length 0
     { nl := initNl (pass1 es) } dInit (by omega) (Nat.zero_le _) (init_inv _) rfl
-    (fun ⟨j, _, hj, _⟩ => by omega)
+    (fun ⟨j, _, hj, _⟩ => by omega) (fun _ h => by cases h)
   simp only [List.drop_zero] at h1 h2
-  refine ⟨smF, sdF, h1, h2, inv, hcp, ?_⟩
+  refine ⟨smF, sdF, h1, h2, inv, hcp, ?_, hhl⟩
   -- some entry has been linked below the root, so the root directory exists
   obtain ⟨i, hi, hci⟩ := sc.nonEmpty
   have hil : i < (pass1 es).length := by rw [pass1_length]; exact hi
@@ -2952,10 +2939,16 @@ theorem final_states {es : List Entry} (sc : SpecConforming es) :
 
 theorem memTree_accept {es : List Entry} {smF : MState}
     (h : pass2 (pass1 es) (enumFrom' 0 (pass1 es)) { nl := initNl (pass1 es) } = some smF)
-    (hroot : [] ∈ smF.imps) (hl : lastIdx (pass1 es) [] = none) :
+    (hroot : [] ∈ smF.imps) (hl : lastIdx (pass1 es) [] = none)
+    (hsrc : ∀ org, org ∈ smF.hlSources → smF.kids org = []) :
     memTree es = .accept { root := .root, node := memNode (pass1 es) smF } := by
   unfold memTree
   simp only [h]
+  have hany : (smF.hlSources.any fun org => ¬ (smF.kids org).isEmpty) = false := by
+    rw [List.any_eq_false]
+    intro org horg
+    simp [hsrc org horg]
+  simp only [hany, Bool.false_eq_true, ↓reduceIte]
   have hlen : lenM (pass1 es) smF ≠ 0 := by
     unfold lenM
     have : 0 < smF.imps.length := List.length_pos_of_mem hroot
@@ -3171,10 +3164,14 @@ theorem trees_agree {es : List Entry} (sc : SpecConforming es) :
       dbTree es = .accept { root := .root, node := dbNode sdF } ∧
       TreesAgree { root := .root, node := memNode (pass1 es) smF } { root := .root, node := dbNode sdF }
         (Created (pass1 es) es.length smF.imps) := by
-  obtain ⟨smF, sdF, h1, h2, inv, hcp, hroot⟩ := final_states sc
+  obtain ⟨smF, sdF, h1, h2, inv, hcp, hroot, hhl⟩ := final_states sc
   have ok := spec_treeOK sc
   have hl : lastIdx (pass1 es) [] = none := (lastIdx_eq_none_iff _ []).mpr ok.noRoot
-  refine ⟨smF, sdF, memTree_accept h1 hroot hl, dbTree_accept h2, ⟨rfl, trivial, ?_, ?_⟩⟩
+  have hsrc : ∀ org, org ∈ smF.hlSources → smF.kids org = [] := by
+    intro org horg
+    rw [inv.kids]
+    exact inv.noKids org (fun h => (hhl org horg).2 h.2)
+  refine ⟨smF, sdF, memTree_accept h1 hroot hl hsrc, dbTree_accept h2, ⟨rfl, trivial, ?_, ?_⟩⟩
   · intro k hk
     exact node_agree sc inv hcp hroot k hk
   · intro k hk kv hkv
